@@ -24,13 +24,21 @@ func Blocks(p *Program) []BlockRef {
 		}
 		return n
 	}
-	defPat := func(d *DecoDef) *Pattern {
+	// defPats: the patterns visible at a definition's `next` (its condition,
+	// and a second condition when next sits directly under one)
+	defPats := func(d *DecoDef) []*Pattern {
+		var out []*Pattern
 		if len(d.Body) > 0 {
-			if c, ok := d.Body[0].(*Cond); ok {
-				return patternOf(c.C)
+			for c, ok := d.Body[0].(*Cond); ok; {
+				out = append(out, patternOf(c.C))
+				if len(c.Then) == 1 {
+					c, ok = c.Then[0].(*Cond)
+				} else {
+					ok = false
+				}
 			}
 		}
-		return nil
+		return out
 	}
 	walk = func(ss *[]Stmt, kind string, vis map[*Pattern]bool, inDef bool) {
 		out = append(out, BlockRef{ss, kind, vis, inDef})
@@ -45,7 +53,11 @@ func Blocks(p *Program) []BlockRef {
 			case *Otherwise:
 				walk(&n.Body, "otherwise", vis, inDef)
 			case *Deco:
-				walk(&n.Body, "deco", with(vis, defPat(n.Def)), inDef)
+				v := vis
+				for _, pt := range defPats(n.Def) {
+					v = with(v, pt)
+				}
+				walk(&n.Body, "deco", v, inDef)
 			}
 		}
 	}
